@@ -143,6 +143,21 @@ def evaluate(case) -> Verdict:
             if want is not None and want != text:
                 v.fail(f"wrong-content:{cfg['loader']}", f"{label} {case['name']!r}: {path!r} holds {want!r} but the template is {text!r}")
         v.labels.append(f"{mode}:{o[0] if o[0] != 'liquid' else 'not-found'}")
+        if cfg["loader"] == "cfs":
+            # "cached or not": the same name on a loader whose cache already holds the directory's ordinary templates
+            # must resolve exactly as it does on a cold one (a cache keyed more loosely than the path check would
+            # answer names that the loader refuses)
+            wl, _ = make_loader(cfg)
+            wenv = Environment(loader=wl)
+            for wn in WARM:
+                oc.outcome_of(lambda: wenv.get_template(wn))  # noqa: B023
+            if mode == "sync":
+                w = oc.outcome_of(lambda: summ(wenv.get_template(name)))
+            else:
+                w = oc.outcome_async(lambda: _load_async(wenv, name, summ))
+            if oc.short(w)[:2] != oc.short(o)[:2]:
+                v.fail("warm-cache-resolves-differently", f"{label} get_template({case['name']!r}): cold loader {oc.short(o)!r:.120}, "
+                       f"after loading {WARM}: {oc.short(w)!r:.120}")
     n = case["name"]
     v.nontrivial = ".." in n or n.startswith(("/", "$", "\\")) or "link_" in n or any(ord(c) < 32 for c in n) or len(n) > 255
     v.labels.append("loader:" + cfg["loader"] + ("+reject" if cfg.get("reject") else ""))
@@ -153,6 +168,7 @@ async def _load_async(env, name, summ):
     return summ(await env.get_template_async(name))
 
 
+WARM = ["a.liquid", "a", "b", "sub/b.liquid", "sub/deep/c.liquid", "sub/e", "d.txt", "only2.liquid", "é.liquid"]
 SEGMENTS = [
     "a.liquid", "a", "b", "sub", "deep", "c.liquid", "b.liquid", "..", ".", "", "outside", "link_out.liquid", "link_out",
     "link_dir", "link_in.liquid", "link_sibling.liquid", "secret.liquid", "secret", "é.liquid", "é", "with space.liquid", "d.txt", "e",
@@ -171,6 +187,8 @@ FIXED_NAMES = [
     "", ".", "..", "/", "a\x00b", "x" * 300, "sub/" + "y" * 300 + ".liquid", "$ROOT/a.liquid", "../private.liquid", "$BASE/outside/a.liquid",
     "é.liquid", "é", "with space.liquid", "only2.liquid", "missing", "missing.liquid", "/etc/passwd", "../../../../../../etc/passwd",
     "../root2/only2.liquid", "sub/../../root2/only2.liquid", "../root2/only2", "../root2/a.liquid", "../outside/../root2/only2.liquid",
+    "nothing/../a.liquid", "a.liquid/../a.liquid", "sub/./b.liquid", "sub//b.liquid", "sub/deep/../b.liquid", "sub/deep/../../a.liquid",
+    "./sub/../a", "A.LIQUID", "a.liquid ", " a.liquid", "sub/../sub/e", "sub/deep/../../d.txt", "a.liquid/.", "sub/b.liquid/..",
     "..\\private.liquid", "sub\\..\\..\\private.liquid", "..\\..\\outside\\secret.liquid", "$BOUT\\secret.liquid", "sub\\b.liquid", "..\\outside\\secret",
 ]
 
